@@ -52,7 +52,8 @@ def rich_same(a, b):
 CHAR_CLASSES = {
     'ascii': 'a', 'cr': '\r', 'lf': '\n', 'crlf': '\r\n', 'nul': '\x00',
     'nel': '\x85', 'ls': ' ', 'latin': '\xe9', 'cjk': '中',
-    'astral': '\U0001F600', 'surrogate': '\ud800',
+    'astral': '\U0001F600', 'surrogate': '\ud800', 'bom': '\ufeff',
+    'nonchar': '\ufffe', 'replacement': '\ufffd',
     'mixed': 'x\r\ny\rz\n\x00\x85 ',
 }
 BYTE_CLASSES = {'a': b'a', 'nul': b'\x00', 'crlf': b'\r\n', 'ff': b'\xff',
@@ -86,6 +87,12 @@ def values(m, json_only=False):
     for name, unit in CHAR_CLASSES.items():
         for n in lengths(m):
             out.append(('str %s x%d' % (name, n), fill(unit, n)))
+    for n in lengths(m):
+        if n:
+            # special first / last code point around otherwise plain text
+            out.append(('str bom-first x%d' % n, '\ufeff' + 'a' * (n - 1)))
+            out.append(('str cr-last x%d' % n, 'a' * (n - 1) + '\r'))
+            out.append(('str nul-first x%d' % n, '\x00' + 'a' * (n - 1)))
     if not json_only:
         for name, unit in BYTE_CLASSES.items():
             for n in lengths(m):
